@@ -7,6 +7,7 @@ import (
 	"go/ast"
 	"go/parser"
 	"go/token"
+	"os"
 	"path/filepath"
 	"sort"
 	"strings"
@@ -40,7 +41,7 @@ func init() {
 			"'tree unmodified' is decided by a structural reflection snapshot taken by the monitor before the call",
 			"the order of ResolvePackage calls follows map iteration, so fail-at-k hits a different package from run to run; every k is covered, not every (k, package) pair",
 		},
-		Required: map[string]int{"fault_kinds": 8},
+		Required: map[string]int{"fault_kinds": 9},
 	})
 }
 
@@ -389,6 +390,11 @@ func c17Decorate(c *fw.Ctx, id, name string, src []byte) {
 			}
 		}
 	}
+	// (b3) the same file read from a directory: Decorator.ParseDir with a failing identifier resolver,
+	// and with a failing package-name resolver inside the syntax-only resolver
+	if strings.HasSuffix(name, ".go") && !strings.HasSuffix(name, "_test.go") && len(src) < 40000 {
+		c17ParseDir(c, id, name, src)
+	}
 	// (c) failure inside goast's package-name resolver
 	cid := id + "/goast-inner-resolver-fails"
 	c.Case(cid, func() {
@@ -419,6 +425,100 @@ func c17Decorate(c *fw.Ctx, id, name string, src []byte) {
 		}
 		c.Nontrivial(cid)
 	})
+}
+
+// c17ParseDir writes the file and a companion file of the same package into a scratch directory and
+// injects resolver failures into Decorator.ParseDir.
+func c17ParseDir(c *fw.Ctx, id, name string, src []byte) {
+	fset0 := token.NewFileSet()
+	af, err := parser.ParseFile(fset0, name, src, parser.PackageClauseOnly)
+	if err != nil {
+		return
+	}
+	dir, err := os.MkdirTemp("", "c17dir")
+	if err != nil {
+		return
+	}
+	defer os.RemoveAll(dir)
+	extra := "package " + af.Name.Name + "\n\nimport \"strings\"\n\nvar zzExtra = strings.ToUpper(\"x\")\n"
+	if os.WriteFile(filepath.Join(dir, name), src, 0o644) != nil || os.WriteFile(filepath.Join(dir, "zz_extra.go"), []byte(extra), 0o644) != nil {
+		return
+	}
+	printPkgs := func(pkgs map[string]*dst.Package) string {
+		var names []string
+		for pn, pk := range pkgs {
+			for fn := range pk.Files {
+				names = append(names, pn+"\x00"+fn)
+			}
+		}
+		sort.Strings(names)
+		out := ""
+		for _, k := range names {
+			parts := strings.SplitN(k, "\x00", 2)
+			s, _ := printWithImports(pkgs[parts[0]].Files[parts[1]])
+			out += "// " + filepath.Base(parts[1]) + "\n" + s
+		}
+		return out
+	}
+	for _, which := range []string{"ident", "package-name"} {
+		mk := func(failAt int) (resolver.DecoratorResolver, func() int) {
+			if which == "ident" {
+				fr := &failingIdentResolver{inner: goast.New(), failAt: failAt}
+				return fr, func() int { return fr.calls }
+			}
+			in := &failingPkgResolver{inner: guess.New(), failAt: failAt}
+			return goast.WithResolver(in), func() int { return in.calls }
+		}
+		probe, calls := mk(0)
+		var refPkgs map[string]*dst.Package
+		var refErr error
+		if sig, _ := fw.Try(func() {
+			refPkgs, refErr = decorator.NewDecoratorWithImports(token.NewFileSet(), "example.com/self", probe).ParseDir(dir, nil, parser.ParseComments)
+		}); sig != "" || refErr != nil || refPkgs == nil {
+			c.Count("inconclusive_clean_parsedir_fails", 1)
+			continue
+		}
+		K := calls()
+		if K == 0 {
+			continue
+		}
+		refOut := printPkgs(refPkgs)
+		seen := map[int]bool{}
+		for _, k := range []int{1, 2, (K + 1) / 2, K} {
+			if k < 1 || k > K || seen[k] {
+				continue
+			}
+			seen[k] = true
+			cid := fmt.Sprintf("%s/parsedir-%s-fail@%d", id, which, k)
+			c.Case(cid, func() {
+				c.Observe("fault_kinds", "resolver-in-parse-dir")
+				res, ncalls := mk(k)
+				var out map[string]*dst.Package
+				var err error
+				if sig, detail := fw.Try(func() {
+					out, err = decorator.NewDecoratorWithImports(token.NewFileSet(), "example.com/self", res).ParseDir(dir, nil, parser.ParseComments)
+				}); sig != "" {
+					c.Violate("panic-on-fault", sig, cid+"\n"+detail, string(src))
+					return
+				}
+				if ncalls() < k {
+					c.Count("fault_point_not_reached", 1)
+					return
+				}
+				c17Verdict(c, cid, "parse-dir", err, out != nil, 0, string(src))
+				clean, _ := mk(0)
+				out2, err2 := decorator.NewDecoratorWithImports(token.NewFileSet(), "example.com/self", clean).ParseDir(dir, nil, parser.ParseComments)
+				if err2 != nil || out2 == nil {
+					c.Violate("retry-fails", "retry-fails:parse-dir", fmt.Sprintf("%s: %v", cid, err2), string(src))
+					return
+				}
+				if got := printPkgs(out2); got != refOut {
+					c.Violate("retry-differs", "retry-differs:parse-dir", cid+": retry output differs from the failure-free output", string(src))
+				}
+				c.Nontrivial(cid)
+			})
+		}
+	}
 }
 
 func countFiles(fset *token.FileSet) int {
